@@ -88,8 +88,8 @@ var c20Producer = regexp.MustCompile(`^(Encrypt|EncryptWithContext|EncryptWithDs
 
 // deterministic nonce derivations whose own inputs are checked instead
 var c20Derivations = map[string]string{
-	"(*hybrid/internal/hpke.context).computeNonce":                   "HPKE RFC 9180 §5.2: base_nonce XOR sequence number; base nonce and key derive from a fresh encapsulation (C20.ephemeral)",
-	"streamingaead/subtle/noncebased.generateSegmentNonce":           "per-segment nonce = random per-stream prefix || counter || last flag; the prefix is drawn in NewEncryptingWriter (checked below)",
+	"(*hybrid/internal/hpke.context).computeNonce":         "HPKE RFC 9180 §5.2: base_nonce XOR sequence number; base nonce and key derive from a fresh encapsulation (C20.ephemeral)",
+	"streamingaead/subtle/noncebased.generateSegmentNonce": "per-segment nonce = random per-stream prefix || counter || last flag; the prefix is drawn in NewEncryptingWriter (checked below)",
 }
 
 func c20(c *Ctx) {
